@@ -284,9 +284,13 @@ def main(argv):
             "outside_claim": meta.get("outside", []),
             "functions_encoded": meta.get("functions", []),
             "stubs": meta.get("stubs", []),
-            "engine": "CrossHair 0.0.110 (symbolic execution of /repo's Python source, regenerated every run) + z3 %s, real-arithmetic float model" % _z3v(),
+            "engine": {
+                "zsym": "engine/zsym.py: dynamic symbolic execution of /repo's current Python source by z3-backed proxy numbers (ints: Int, floats: exact Real), DFS to exhaustion; z3 %s" % _z3v(),
+                "crosshair": "CrossHair 0.0.110 symbolic execution of /repo's current Python source, real-arithmetic float model; z3 %s" % _z3v(),
+            },
+            "engines_used": dict(collections.Counter(r.get("engine", "crosshair") for r in results.values())),
             "cubes": [
-                {"obligation": r["name"], "verdict": r["verdict"], "paths": r["paths"], "queries": r["queries"],
+                {"obligation": r["name"], "engine": r.get("engine", "crosshair"), "verdict": r["verdict"], "paths": r["paths"], "queries": r["queries"],
                  "solver_s": r["solver_time_s"], "wall_s": r["wall_s"], "params": r["params"]}
                 for r in sorted(results.values(), key=lambda r: r["name"])
             ][:400],
